@@ -2,6 +2,8 @@
 
 package goja
 
+import "math"
+
 // Spec functions for the VM's exception plumbing (properties C03, C08, C14, C15).
 
 // specThrownKind classifies a panic payload the way ECMAScript-visible code may see it:
@@ -49,4 +51,12 @@ func specInterruptPayload(x interface{}) interface{} {
 		return e.iface
 	}
 	return nil
+}
+
+// specVMWF: resource bounds of a VM assumed throughout (rely): it is wired to its runtime, the operand
+// stack pointer is non-negative, and no stack has 2^31 or more entries (the try frames record heights
+// in 32 bits).
+func specVMWF(vm *vm) bool {
+	return vm != nil && vm.r != nil && vm.sp >= 0 && vm.sp <= math.MaxInt32 &&
+		len(vm.callStack) <= math.MaxInt32 && len(vm.iterStack) <= math.MaxInt32 && len(vm.refStack) <= math.MaxInt32 && len(vm.tryStack) <= math.MaxInt32
 }
